@@ -269,6 +269,10 @@ func runC19(c *Check) {
 				}
 				c.Decide(!bad && okBefore, "R3", spec.fn+"#connection-closed-first", s.Pos(), "event-order", nil,
 					"the connection is closed before the channels", "the connection is closed after (or not before) the channels: the reader thread keeps producing into closed channels")
+				// ... and before waiting for the incoming threads: closing it is what ends a reader blocked in a read
+				behindWait, _ := mustPass(s.Instr, zeroEdge(incF))
+				c.Decide(!behindWait, "R3", spec.fn+"#connection-closed-before-waiting", s.Pos(), "edge-cutset", nil,
+					"the connection is closed before the wait for the incoming threads", "the connection is closed only after the incoming-thread counter reached zero: a reader blocked on a silent peer never returns, the counter never reaches zero and the run loop never ends (no reconnect, Stop never returns)")
 			}
 		}
 		c.Min("R3", "saves in "+spec.fn, len(saveSites), len(spec.saves))
@@ -656,6 +660,7 @@ func runC19(c *Check) {
 		}
 		c.Min("R9", "wait loops in Stop", nWait, 1)
 		c.ruleRestartNotBehindStopping("R10")
+		c.whoMayCall("R11", "(*spynode.Node).requestStop", requestStopCallers, 4)
 		var rq []ssa.Instruction
 		for _, s := range callsTo(fn, "(*spynode.Node).requestStop") {
 			rq = append(rq, s.Instr)
